@@ -103,17 +103,22 @@ theorem processHeartbeat_quiet (env : Env) (m : Msg) : Sat Quiet (processHeartbe
   repeat' (first | with_reducible exact disconnect_quiet _ _ _ | sat_step | split)
   quiet_side
 
-theorem resendLoop_quiet (env : Env) (sr : Msg → Bool) (rows : List Msg) (gfb gfe : Int) :
-    Sat Quiet (resendLoop env sr rows gfb gfe) := by
+theorem persistOutboundRow_quiet (n : Int) (row : Msg) : Sat Quiet (persistOutboundRow n row) := by
+  unfold persistOutboundRow
+  repeat' (first | sat_step | split)
+  quiet_side
+
+theorem resendLoop_quiet (env : Env) (sr : Msg → Bool) (endNo : Int) (rows : List Msg) (gfb gfe : Int) :
+    Sat Quiet (resendLoop env sr endNo rows gfb gfe) := by
   induction rows generalizing gfb gfe with
   | nil => unfold resendLoop; exact Sat.pure _
   | cons row rest ih =>
     unfold resendLoop
-    repeat' (first | with_reducible exact ih _ _ | with_reducible exact sendMsg_quiet _ _ | sat_step)
+    repeat' (first | with_reducible exact ih _ _ | with_reducible exact sendMsg_quiet _ _ | with_reducible exact persistOutboundRow_quiet _ _ | sat_step)
 
 theorem processResend_quiet (env : Env) (sr : Msg → Bool) (m : Msg) : Sat Quiet (processResend env sr m) := by
   unfold processResend
-  repeat' (first | with_reducible exact resendLoop_quiet _ _ _ _ _ | with_reducible exact sendMsg_quiet _ _ | with_reducible exact stateSet_quiet _ | with_reducible exact setSeqNum_out_quiet _ | sat_step | dsimp only | split)
+  repeat' (first | with_reducible exact resendLoop_quiet _ _ _ _ _ _ | with_reducible exact sendMsg_quiet _ _ | with_reducible exact stateSet_quiet _ | with_reducible exact setSeqNum_out_quiet _ | sat_step | dsimp only | split)
 
 theorem tickBody_quiet (env : Env) : Sat Quiet (tickBody env) := by
   unfold tickBody
